@@ -151,3 +151,49 @@ func VerifC06_q_filterBindAgree() {
 		}
 	}
 }
+
+// BOUND: topologies {0,1,2,3}; a pod (statefulset or deployment, symbolic policy) requesting two or three disjoint single-address or two-address ranges; Filter approves nodes; the first Bind runs with one API call failing cleanly at a symbolic position 1..8; then the scheduler retries: Filter again (no faults) and Bind on any node it approves must succeed with one IP per range, and memory and store agree
+// ASSUME: C06: the retried Filter / Bind run without faults and nothing else changes in between
+func VerifC06_q_retryAfterFailedBind() {
+	w := vpNewWorld(nondetChoice(floatingip.VNumTopologies), false)
+	if err := w.configure(); err != nil {
+		return
+	}
+	kind := []int{vpKindSts, vpKindDp}[nondetChoice(2)]
+	policy := nondetPick("", "immutable", "never")
+	name := vpPodNameOf(kind, 0)
+	ranges, nReq := "", 2
+	switch nondetChoice(3) {
+	case 0:
+		ranges = fmt.Sprintf(`[["%s"],["%s"]]`, w.ips[0], w.ips[1])
+	case 1:
+		ranges = fmt.Sprintf(`[["%s"],["%s~%s"]]`, w.ips[len(w.ips)-1], w.ips[0], w.ips[1])
+	default:
+		verifAssume(len(w.ips) >= 4)
+		ranges, nReq = fmt.Sprintf(`[["%s"],["%s"],["%s"]]`, w.ips[0], w.ips[1], w.ips[2]), 3
+	}
+	w.setDeployment(2)
+	w.setStatefulSet(2)
+	w.createPod(vpMakePod(name, "U1", kind, policy, "", ranges))
+	w.syncListers()
+	approved, err := w.filter(name, "n1", "n5", "n2", "n3", "n4")
+	if err != nil || len(approved) == 0 {
+		return
+	}
+	w.calls, w.faultAt = 0, nondetInt(1, 8)
+	first := w.bind(name, approved[nondetChoice(len(approved))])
+	w.faultAt = 0
+	verifAssume(first != nil && w.faulted)
+	verifReach("first-bind-failed")
+	approved2, err := w.filter(name, "n1", "n5", "n2", "n3", "n4")
+	if err != nil || len(approved2) == 0 {
+		return // not schedulable any more is an answer Filter may give; C08 checks that nothing stays allocated
+	}
+	berr := w.bind(name, approved2[nondetChoice(len(approved2))])
+	verifReach("retried")
+	verifAssert("C06/retry-bind-succeeds", berr == nil, "after a failed Bind, the retried Bind failed on a node the retried Filter approved")
+	if berr == nil {
+		verifAssert("C06/retry-one-ip-per-range", len(vpBoundIPs(w.pods[name])) == nReq, "the retried Bind did not yield one IP per requested range")
+	}
+	verifAssert("C06/retry-agree", w.agree(), "memory and store disagree after the retried Bind")
+}
